@@ -80,7 +80,7 @@ def cmd_confirm(sid, wt=None):
         if w.applied:
             rc, out = sh("/venv/bin/python -m pytest -q -p no:cacheprovider 2>&1 | tail -1", cwd=w.dir)
             res["suite_with_change"] = out.strip()
-            rc, out = sh(f"/venv/bin/python {SEEDED}/{sid}/demo.py", cwd=w.dir)
+            rc, out = sh(f"/venv/bin/python {SEEDED}/{sid}/demo.py", cwd=w.dir, env=dict(os.environ, PYTHONPATH=w.dir))
             res["demo_with_change_rc"] = rc
             res["demo_with_change_tail"] = out.strip()[-300:]
     if wt is not None:
@@ -88,7 +88,7 @@ def cmd_confirm(sid, wt=None):
     else:
         with Worktree(sid) as w:
             run_in(w)
-    rc, out = sh(f"/venv/bin/python {SEEDED}/{sid}/demo.py", cwd=REPO)
+    rc, out = sh(f"/venv/bin/python {SEEDED}/{sid}/demo.py", cwd=REPO, env=dict(os.environ, PYTHONPATH=REPO))
     res["demo_clean_rc"] = rc
     res["confirmed"] = bool(res.get("applies") and "208 passed" in res.get("suite_with_change", "") and res.get("demo_with_change_rc") == 1 and rc == 0)
     m["confirmation"] = res
